@@ -86,34 +86,58 @@ def check_store_writers(repo, rep, fl):
     rep.floor(rid, 6)
 
 
+def _roots(fn, expr, seen=None) -> set:
+    """base names an expression is built from, local variables resolved through their assignments (flow-insensitive)"""
+    seen = set() if seen is None else seen
+    out = set()
+    assigns = {}
+    for n in ast.walk(fn):
+        if isinstance(n, ast.Assign):
+            for t in n.targets:
+                for x in (t.elts if isinstance(t, (ast.Tuple, ast.List)) else [t]):
+                    if isinstance(x, ast.Name):
+                        assigns.setdefault(x.id, []).append(n.value)
+        elif isinstance(n, ast.AugAssign) and isinstance(n.target, ast.Name):
+            assigns.setdefault(n.target.id, []).append(n.value)
+        elif isinstance(n, ast.For) and isinstance(n.target, ast.Name):
+            assigns.setdefault(n.target.id, []).append(n.iter)
+    params = {a.arg for a in fn.args.args}
+    for n in ast.walk(expr):
+        if isinstance(n, ast.Name) and isinstance(n.ctx, ast.Load):
+            if n.id in assigns and n.id not in params:
+                if n.id not in seen:
+                    seen.add(n.id)
+                    for v in assigns[n.id]:
+                        out |= _roots(fn, v, seen)
+            else:
+                out.add(n.id)
+    return out
+
+
 def check_forming(repo, rep):
     rid = "C01-R3"
-    rep.rule(rid, "forming higher-timeframe candles are generated from already STORED 1m candles only (CandlesState.get_candles / "
-                  "get_current_candle slice self.storage up to the stored count; the partial candle at a fill uses the stored tail); the "
-                  "exhaustive matching-loop runs of C08 show that only the earlier part of a split candle is published")
+    rep.rule(rid, "forming higher-timeframe candles are generated from already STORED 1m candles only: in CandlesState.get_candles / "
+                  "get_current_candle whatever is handed to generate_candle_from_one_minutes is built (through any local variables) from "
+                  "`self` - the store - and the method's scalar parameters alone; the partial candle published at a fill is decided by "
+                  "R4 (its source is what the store hands back); the exhaustive matching-loop runs of C08 show that only the earlier "
+                  "part of a split candle is published")
     n = 0
     for meth in ("get_candles", "get_current_candle"):
         fn = repo.func(STATE, f"CandlesState.{meth}")
+        params = {a.arg for a in fn.args.args}
         for c in ast.walk(fn):
             if isinstance(c, ast.Call) and SL.last(SL.dotted(c.func)) == "generate_candle_from_one_minutes":
                 n += 1
                 a = c.args[1] if len(c.args) > 1 else None
-                ok = isinstance(a, ast.Subscript) and norm(a.value).startswith("self.storage[") and isinstance(a.slice, ast.Slice) and \
-                    a.slice.upper is not None and norm(a.slice.upper) == "short_count"
-                if not ok:
-                    rep.violation(rid, f"{meth}|source", f"CandlesState.{meth}: forming candle is generated from `{norm(a) if a is not None else None}`, not from the stored 1m candles up to the stored count")
-                rep.instance(rid, f"{meth}|{norm(a) if a is not None else ''}")
-        cnt = [n2 for n2 in ast.walk(fn) if isinstance(n2, ast.Assign) and norm(n2.targets[0]) == "short_count"]
-        if cnt and "len(self.get_storage(exchange, symbol, '1m'))" not in norm(cnt[0].value):
-            rep.violation(rid, f"{meth}|short_count", f"CandlesState.{meth}: short_count is `{norm(cnt[0].value)}`, not the number of stored 1m candles")
-    fn = repo.func(BT, "_update_all_routes_a_partial_candle")
-    src = [n2 for n2 in ast.walk(fn) if isinstance(n2, ast.Assign) and norm(n2.targets[0]) == "candles_1m"]
-    if not src or "store.candles.get_candles(exchange, symbol, '1m')" not in norm(src[0].value):
-        rep.violation(rid, "partial|source", "the partial candle published at a fill is not generated from the stored 1m candles")
-    rep.instance(rid, "partial|source")
+                roots = _roots(fn, a) if a is not None else {"<missing>"}
+                alien = sorted(r for r in roots if r not in params and r not in ("self", "np", "len", "int", "min", "max", "jh", "range", "abs"))
+                if alien:
+                    rep.violation(rid, f"{meth}|source", f"CandlesState.{meth}: the forming candle is generated from `{norm(a) if a is not None else None}`, which is built from {alien} - "
+                                                         f"not only from the candle store (self) and the method's parameters")
+                rep.instance(rid, f"{meth}|{norm(a) if a is not None else ''}", {"roots": sorted(roots)})
     if n < 2:
         raise AnalysisError("C01-R3: forming-candle generation sites not found")
-    rep.floor(rid, 3)
+    rep.floor(rid, 2)
 
 
 def check_order_of_phases(repo, rep):
